@@ -44,6 +44,23 @@ CHECKS = {
         note="Latency of timed waits not judged; lock types limited to pika::mutex and std::mutex; D14 (timed wait on a plain OS "
              "thread deadlocks the notifier) is a listed known finding.",
         ref="DESIGN.md section 2, C07"),
+    "C08": dict(
+        technique="runtime monitoring: shadow permit count (raised before release, lowered after acquire), blocked-acquirer rounds with "
+                  "quiescence watchdog, exclusive timed-acquire scenario, sliding-window shadow bound; TSan as extra oracle",
+        text="Exploration: counting/binary semaphores under random acquire/try_acquire/timed/release(n) traffic from tasks and OS threads "
+             "(conservation, final count), W blocked acquirers released by release(n) chunks (all must proceed, nothing left over), "
+             "exclusive timed acquire with an in-time release (must be true) and expiry (false, count untouched), sliding_semaphore "
+             "wait/signal chains (window bound, progress).",
+        note="Shadow bounds the real count from above, so a negative shadow is a real over-acquisition; OS threads avoid timed acquires (D14).",
+        ref="DESIGN.md section 2, C08"),
+    "C09": dict(
+        technique="runtime monitoring: shadow arrival counters per latch / barrier phase, completion-function counter, plain per-phase cells "
+                  "(TSan), quiescence watchdog for stuck waiters; ASan for latch lifetime",
+        text="Exploration: latch rounds with mixed count_down(k)/arrive_and_wait(k)/wait()/late waiters on tasks and OS threads, barrier "
+             "cases with up to 40 participants, 200 phases, drops and split arrive/wait, event with current and future waiters, call_once "
+             "with throwing attempts; departures must observe complete arrivals, completion exactly once per phase, no stuck waiter.",
+        note="Shadow counters move before the real arrival, so an early release observed through them is real; interleavings sampled.",
+        ref="DESIGN.md section 2, C09"),
 }
 
 NOT_YET = "not claimed yet: harness under construction in this session (see DESIGN.md section 2)"
